@@ -558,15 +558,17 @@ theorem pairwise_le_last {α : Type} {R : α → α → Prop} {l : List α} (hp 
   · exact Or.inr ((List.pairwise_append.mp hp).2.2 x h1 z (by simp))
   · simp at h1; exact Or.inl h1
 
-/-- the part of `deleteRange` that logs the call and applies the whole log again -/
+/-- the part of `deleteRange` that logs the call and applies the new log entries -/
 theorem deleteRange_main {B : List (Key × List (Pts Int))} (ok : BOK B) (rf : RFile) (done : List DelCall)
     (inv : RInv B rf done) (keys : List Key) (lo hi : Int) (present : List Key)
     (hpres : ∀ k, k ∈ present ↔ (k ∈ keys ∧ ∃ tombs, (k, some tombs) ∈ rf.index)) :
     RInv B { rf with log := rf.log ++ present.map (fun k => (k, lo, hi)),
-                     index := (rf.log ++ present.map (fun k => (k, lo, hi))).foldl rf.applyEntry rf.index }
+                     index := (present.map (fun k => (k, lo, hi))).foldl rf.applyEntry rf.index }
       (done ++ [(keys, lo, hi)]) := by
-  generalize hlog' : rf.log ++ present.map (fun k => (k, lo, hi)) = log'
+  generalize hadd : present.map (fun k => (k, lo, hi)) = added
+  generalize hlog' : rf.log ++ added = log'
   have hsub : ∀ e ∈ rf.log, e ∈ log' := fun e he => by rw [← hlog']; exact List.mem_append_left _ he
+  have hsub2 : ∀ e ∈ added, e ∈ log' := fun e he => by rw [← hlog']; exact List.mem_append_right _ he
   have hs0 : ∀ k st, (k, st) ∈ rf.index → SoundK (timesOf B k) log' k st := by
     intro k st h
     have := inv.sound k st h
@@ -576,8 +578,15 @@ theorem deleteRange_main {B : List (Key × List (Pts Int))} (ok : BOK B) (rf : R
       obtain ⟨e, he, he'⟩ := this t ht
       exact ⟨e, hsub e he, he'⟩
     | some tombs => exact fun r hr => hsub _ (this r hr)
-  obtain ⟨f1, f2, f3, f4⟩ := foldl_applyEntry_spec ok rf inv.blocks log' log' rf.index (fun _ h => h) hs0
-  refine ⟨inv.blocks, by show (List.foldl rf.applyEntry rf.index log').map (·.1) = _; rw [f1]; exact inv.keys, f2, f4, ?_, ?_⟩
+  obtain ⟨f1, f2, f3, f4⟩ := foldl_applyEntry_spec ok rf inv.blocks log' added rf.index hsub2 hs0
+  refine ⟨inv.blocks, by show (List.foldl rf.applyEntry rf.index added).map (·.1) = _; rw [f1]; exact inv.keys, f2, ?_, ?_, ?_⟩
+  · intro k st' hst' e he hek t ht h1 h2
+    have he' : e ∈ log' := he
+    rw [← hlog'] at he'
+    rcases List.mem_append.mp he' with h | h
+    · obtain ⟨st, hst, hmono, _⟩ := f3 k st' hst'
+      exact hmono t (inv.complete k st hst e h hek t ht h1 h2)
+    · exact f4 k st' hst' e h hek t ht h1 h2
   · intro e he
     show ∃ d ∈ done ++ [(keys, lo, hi)], e.1 ∈ d.1 ∧ e.2 = d.2
     have he' : e ∈ log' := he
@@ -585,7 +594,8 @@ theorem deleteRange_main {B : List (Key × List (Pts Int))} (ok : BOK B) (rf : R
     rcases List.mem_append.mp he' with h | h
     · obtain ⟨d, hd, hd'⟩ := inv.logFrom e h
       exact ⟨d, List.mem_append_left _ hd, hd'⟩
-    · simp only [List.mem_map] at h
+    · rw [← hadd] at h
+      simp only [List.mem_map] at h
       obtain ⟨k, hk, rfl⟩ := h
       exact ⟨(keys, lo, hi), by simp, ((hpres k).mp hk).1, rfl⟩
   · intro d hd k hk st' hst' t ht h1 h2
@@ -600,8 +610,8 @@ theorem deleteRange_main {B : List (Key × List (Pts Int))} (ok : BOK B) (rf : R
       | none => exact Or.inl (hn rfl)
       | some tombs =>
         right
-        rw [← hlog']
-        apply List.mem_append_right
+        apply hsub2
+        rw [← hadd]
         simp only [List.mem_map]
         exact ⟨k, (hpres k).mpr ⟨hk, tombs, hst⟩, rfl⟩
 
